@@ -69,16 +69,70 @@ BodiesCodes == { BEmpty, B("code", 1000, <<>>, 0), B("code", 1001, Bye, 0), B("c
                  B("code", 1000, <<195, 40>>, 0), B("code", 3000, <<>>, 124) }
 BodiesRaw1 == { B("raw1", 0, <<>>, 0), B("code", 1000, <<>>, 0) }
 
+BodiesQ == { BEmpty, B("code", 1000, <<>>, 0), B("code", 1001, Bye, 0), B("code", 999, <<>>, 0), B("code", 3000, <<>>, 123),
+             B("code", 3000, <<>>, 124), B("code", 4999, <<197, 190>>, 1), B("code", 1000, <<195, 40>>, 0), B("code", 1005, <<>>, 0),
+             B("code", 1012, <<>>, 0) }
+BodiesNoRaw == BodiesAll \ { B("raw1", 0, <<>>, 0) }
+BodiesTwo == { BEmpty, B("code", 1001, Bye, 0) }
+BodiesOne == { B("code", 1000, <<>>, 0) }
+
 D == [close |-> "default", ping |-> "default", pong |-> "default"]
 HDefault == {D}
 HCustom == { D, [close |-> "silent", ping |-> "silent", pong |-> "silent"], [close |-> "err", ping |-> "default", pong |-> "default"],
              [close |-> "default", ping |-> "err", pong |-> "default"], [close |-> "default", ping |-> "default", pong |-> "err"],
              [close |-> "own", ping |-> "silent", pong |-> "default"] }
 
+HCustom3 == { D, [close |-> "silent", ping |-> "silent", pong |-> "silent"], [close |-> "err", ping |-> "err", pong |-> "err"],
+              [close |-> "own", ping |-> "default", pong |-> "default"] }
+HErr == { D, [close |-> "err", ping |-> "default", pong |-> "default"], [close |-> "default", ping |-> "err", pong |-> "default"],
+          [close |-> "default", ping |-> "default", pong |-> "err"] }
+ActsBody  == {"wclose", "read"}
+ActsH     == {"wclose", "wping", "wpong", "read"}
+ActsFrag2 == {"wbegin", "wclose", "wping", "read"}
+ActsShut  == {"wdata", "wclose", "tclose", "read"}
+ActsReaders == {"wdata", "wjson", "read"}
+ActsMain  == {"wdata", "wbegin", "wclose", "wping", "wpong", "tclose", "read"}
+\* ------------------------------------------------------------- configurations
+Cfg(fam, maxops, acts, bodies, payloads, kinds, modes, handlers, limits, zs) ==
+  [fam |-> fam, maxops |-> maxops, acts |-> acts, bodies |-> bodies, payloads |-> payloads, kinds |-> kinds, modes |-> modes,
+   handlers |-> handlers, limits |-> limits, zs |-> zs]
 ActsAll   == {"wdata", "wjson", "wprep", "wbegin", "wclose", "wping", "wpong", "setz", "tclose", "read"}
 ActsClose == {"wdata", "wclose", "wping", "tclose", "read"}
 ActsCtl   == {"wdata", "wclose", "wping", "wpong", "read"}
 ActsFrag  == {"wdata", "wbegin", "wclose", "wping", "read"}
 ActsData  == {"wdata", "wjson", "wprep", "setz", "read", "wclose"}
 ActsLimit == {"wdata", "wbegin", "wclose", "read"}
+
+S == {"small"}
+M == {"msg"}
+MP == {"msg", "part"}
+MPJ == {"msg", "part", "json"}
+\* the families: everything with small alphabets; every Close body; the one-byte body; control payload sizes; handlers the
+\* application sets; sizes x read modes with compression; the read limit; messages in two parts; shutdown; readers
+FamAll(d, acts, modes) == Cfg("all", d, acts, BodiesSmall, {5}, S, modes, HDefault, {0}, {FALSE})
+FamBodies(d, b)  == Cfg("bodies", d, ActsBody, b, {5}, S, M, HDefault, {0}, {FALSE})
+FamRaw1(d, h)    == Cfg("raw1", d, ActsClose, BodiesRaw1, {5}, S, M, h, {0}, {FALSE})
+FamCtl(d)        == Cfg("ctl", d, ActsCtl, BodiesTwo, {0, 125, 126}, S, M, HDefault, {0}, {FALSE})
+FamHandlers(d, h) == Cfg("handlers", d, ActsH, BodiesTwo, {5}, S, M, h, {0}, {FALSE})
+FamData(d)       == Cfg("data", d, ActsData, BodiesOne, {5}, {"empty", "big"}, MPJ, HDefault, {0}, {TRUE})
+FamLimit(d)      == Cfg("limit", d, ActsLimit, BodiesOne, {5}, {"small", "big"}, MP, HDefault, {50}, {FALSE})
+FamFrag(d)       == Cfg("frag", d, ActsFrag2, BodiesOne, {5}, S, MP, HDefault, {0}, {FALSE})
+FamShut(d)       == Cfg("shut", d, ActsShut, BodiesOne, {5}, S, M, HDefault, {0}, {FALSE})
+FamReaders(d, k) == Cfg("readers", d, ActsReaders, BodiesOne, {5}, k, MPJ, HDefault, {0}, {FALSE})
+
+ConfigsQuick == { FamAll(3, ActsAll, MPJ), FamBodies(3, BodiesQ), FamRaw1(3, HDefault), FamCtl(3), FamHandlers(3, HCustom3), FamData(3),
+                  FamLimit(3), FamFrag(4), FamShut(4), FamReaders(4, S) }
+\* thorough: the generators (one JVM per group) ...
+ConfigsGenA == { FamAll(4, ActsMain, MP) }
+ConfigsGenB == { FamHandlers(4, HCustom), FamBodies(3, BodiesNoRaw), FamRaw1(3, HErr) }
+ConfigsGenC == { FamCtl(4), FamData(4), FamLimit(4), FamFrag(5), FamShut(5), FamReaders(4, {"small", "big"}) }
+\* ... and the state graph without the history variable, a call deeper where that is affordable
+ConfigsMcA == { FamAll(4, ActsMain, MP), FamHandlers(4, HCustom), FamCtl(4), FamData(4) }
+ConfigsMcB == { FamBodies(4, BodiesNoRaw), FamRaw1(4, HErr), FamLimit(4), FamFrag(6), FamShut(6), FamReaders(5, {"small", "big"}) }
+ConfigsSim == { Cfg("sim", 12, ActsAll, BodiesNoRaw, {0, 5, 125, 126}, {"empty", "small", "big"}, MPJ, HCustom, {0, 50}, {FALSE, TRUE}) }
+ConfigsNeg == { Cfg("neg", 0, {}, {}, {}, {}, {}, HDefault, {0}, {FALSE}) }
+\* small configurations for the named deviations
+ConfigsDevBody == { Cfg("dev", 3, ActsBody, BodiesTwo, {5}, S, M, HDefault, {0}, {FALSE}) }
+ConfigsDevShut == { Cfg("dev", 3, ActsShut, BodiesOne, {5}, S, M, HDefault, {0}, {FALSE}) }
+ConfigsDevCtl  == { Cfg("dev", 3, ActsH, BodiesOne, {5}, S, M, HDefault, {0}, {FALSE}) }
 =============================================================================
